@@ -531,9 +531,16 @@ func (e *Env) Step(o Op) []int64 {
 			return nil
 		}
 		var ds [][]byte
-		for _, s := range o.Slots {
+		// presented alongside: entries that are not tokens at all (ignored by the verifier, wherever they stand)
+		if o.S%3 == 1 {
+			ds = append(ds, []byte("not a token"), []byte{0xc1})
+		}
+		for i, s := range o.Slots {
 			if d, ok := e.Slots[s]; ok {
 				ds = append(ds, rawEncode(d))
+			}
+			if i == 0 && o.S%3 == 2 {
+				ds = append(ds, []byte{0x94, 0xc0})
 			}
 		}
 		tr := map[string][]macaroon.EncryptionKey{}
